@@ -1,8 +1,10 @@
 #!/bin/sh
-# killcheck.sh <ID>: stop every process of a running ./check <ID> (parents first).
+# killcheck.sh <ID>: stop every process of a running ./check <ID> (python parents first,
+# then the drivers in its private temp directory).  Only python3 processes are matched,
+# so the calling shell is never hit.
 id="$1"
-for p in $(pgrep -f "check $id( |\$)"); do [ "$p" != "$$" ] && kill -9 "$p" 2>/dev/null; done
-for p in $(pgrep -f "/verif-$id-"); do [ "$p" != "$$" ] && kill -9 "$p" 2>/dev/null; done
+for p in $(pgrep -f "^python3 .*check $id( |\$)"); do kill -9 "$p" 2>/dev/null; done
+for p in $(pgrep -f "^/var/tmp/verif-$id-"); do kill -9 "$p" 2>/dev/null; done
 sleep 1
 rm -rf /var/tmp/verif-"$id"-*
 exit 0
